@@ -1,5 +1,5 @@
 (* Lin/Extract.v — extraction of the C04 checker and specification (ExtrOcamlBasic only) *)
 From Coq Require Import ExtrOcamlBasic.
-From ZV Require Import Lin.Spec Lin.Checker.
+From ZV Require Import Lin.Spec Lin.Checker Lin.Memo.
 Extraction Language OCaml.
-Extraction "model.ml" Z.of_N N.of_nat Nat.add init step run check check_witness.
+Extraction "model.ml" Z.of_N N.of_nat Nat.add init step run check check_witness mcheck.
